@@ -2,8 +2,9 @@
 from checks.server_common import *
 
 PROP = "C07"
-CONE = ["Server/ServerModel.v", "Server/ServerProofs.v", "Server/ServerProofs2.v", "Props/C07.v", "Props/C03.v", "Dic/ConjProofs.v"]
-THEOREMS = ["C07_registered_convertible", "C07_only_adds", "C07_register_then_apply", "C07_guess_forms", "C07_registered_independent"]
+CONE = ["Server/ServerModel.v", "Server/ServerProofs.v", "Server/ServerProofs2.v", "Props/C07.v", "Props/C03.v", "Dic/ConjProofs.v",
+        "Server/Protocol.v", "Server/ConcModel.v", "Server/ConcProofs.v", "Server/ConcAtomic.v", "Props/C14.v", "Gen/Protocol.v"]
+THEOREMS = ["C07_registered_convertible", "C07_only_adds", "C07_register_then_apply", "C07_guess_forms", "C07_registered_independent", "C07_no_deadlock"]
 ENDINGS = [c + "ない" for c in "かこがごさそたとなのばぼまもらろわおいきぎしじちにびみりえけげせぜてでねべめれ"] + ["い", "だ"]
 
 
@@ -28,10 +29,37 @@ def gen_c07_history(rnd):
     return base, reqs, regs, probes
 
 
+# guessed registrations and forms they must make convertible, written down from the grammar (not computed by the code under test):
+# the stem that precedes ない, the dictionary form, and well-known forms such as 行く -> 行っ(て)
+GRAMMAR_CORPUS = [
+    ("いかない", "行かない", [("いか", "行か"), ("いき", "行き"), ("いく", "行く"), ("いけ", "行け"), ("いこ", "行こ"), ("いっ", "行っ")]),
+    ("もっていかない", "持って行かない", [("もっていか", "持って行か"), ("もっていっ", "持って行っ")]),
+    ("かかない", "書かない", [("かか", "書か"), ("かき", "書き"), ("かく", "書く"), ("かい", "書い"), ("かけ", "書け"), ("かこ", "書こ")]),
+    ("たべない", "食べない", [("たべ", "食べ"), ("たべる", "食べる"), ("たべれ", "食べれ")]),
+    ("およがない", "泳がない", [("およが", "泳が"), ("およぎ", "泳ぎ"), ("およぐ", "泳ぐ"), ("およい", "泳い")]),
+    ("はなさない", "話さない", [("はなさ", "話さ"), ("はなし", "話し"), ("はなす", "話す")]),
+    ("またない", "待たない", [("また", "待た"), ("まち", "待ち"), ("まつ", "待つ"), ("まっ", "待っ")]),
+    ("かわいい", "可愛い", [("かわいい", "可愛い"), ("かわいく", "可愛く"), ("かわいかっ", "可愛かっ")]),
+    ("いい", "良い", [("いい", "良い")]),
+    ("おおきい", "大きい", [("おおきい", "大きい"), ("おおきく", "大きく")]),
+    ("しずかだ", "静かだ", [("しずかだ", "静かだ"), ("しずかな", "静かな"), ("しずかに", "静かに")]),
+    ("まだだ", "未だだ", [("まだだ", "未だだ"), ("まだな", "未だな")]),
+]
+
+
+def corpus_histories():
+    base = {"std": [{"reading": "くるま", "stem": "車", "speech": {"Noun": "Common"}}], "anc": [{"reading": "で", "stem": "で", "speech": {"Particle": "Case"}}], "tankan": []}
+    items = []
+    for r, w, forms in GRAMMAR_CORPUS:
+        items.append((base, [{"kind": "register", "wkind": "Guess", "reading": r, "word": w}] +
+                            [{"kind": "convert", "input": fr, "context": "Normal", "expect": fw} for fr, fw in forms]))
+    return items
+
+
 def run(tier, seed):
     res = Result(PROP, tier, seed)
     rnd = random.Random(seed)
-    info = standard_proof_steps(res, SRV_GENS, "Props/C07.v", CONE, "Props.C07", THEOREMS)
+    info = standard_proof_steps(res, SRV_GENS + ["gen_protocol"], "Props/C07.v", CONE, "Props.C07", THEOREMS)
     okh, hlog = build_harness()
     okb, blog = build_binaries()
     if not (okh and okb):
@@ -62,6 +90,7 @@ def run(tier, seed):
         reqs2 = list(reqs) + [{"kind": "convert", "input": fr, "context": rnd.choice(["Normal", "Normal", "ForeignWord"]), "expect": fw} for fr, fw in tail]
         reqs2 += [{"kind": "convert", "input": p, "context": "Normal", "probe": "after"} for p in probes]
         items.append((base, reqs2))
+    items = corpus_histories() + items
     runs = run_histories(items, threads=12)
     nontrivial = 0
     for hr in runs:
@@ -86,6 +115,19 @@ def run(tier, seed):
                     changed = True
         nontrivial += changed
     n_model = model_histories(res, PROP, runs)
+    # "within bounded time" while other clients convert: the lock protocol of the updater and the handlers (C07_no_deadlock),
+    # validated on the running server, and registrations racing with conversions under injected delays
+    from checks import c14
+    wd = workdir("c07c")
+    conc = 0
+    try:
+        c14.trace_conformance(res, wd)
+        for dl, c, k, tag in [({"updater.before_dict_lock": 10, "convert.before_pref_lock": 10}, 12, 8, "registrations racing with conversions"),
+                              ({"updater.before_pref_lock": 6, "updater.in_dict_lock": 6, "convert.before_dict_lock": 3}, 8, 10, "slow updater")]:
+            conc += c14.stress(res, wd, dl, c, k, rnd, tag)["requests"]
+            shutil.rmtree(os.path.join(wd, "user"), ignore_errors=True)
+    finally:
+        cleanup(wd)
     cov = {
         "obligations": info["obligations"], "discharged": info["discharged"],
         "checker_cmd": f"cd /verif/coq && make Props/C07.vo + Print Assumptions on {len(THEOREMS)} theorems",
@@ -95,8 +137,8 @@ def run(tier, seed):
         "evaluations": sum(len(hr.requests) for hr in runs), "distinct_nontrivial": nontrivial,
         "rule": "registrations of the three kinds (guess kind with every ending the guesser recognises) with readings over the dictionary alphabet and written forms incl. ASCII and '/' ';', interleaved with conversions; "
                 "afterwards every conjugated form (computed by the real library) is converted and must be offered; probes before / after must only grow; non-trivial = a registration changes a probe's candidate list",
-        "histories": len(runs), "traces_validated_against_impl": n_model,
-        "samples": [runs[0].requests[3:8]],
+        "histories": len(runs), "traces_validated_against_impl": n_model, "concurrent_requests": conc,
+        "samples": [runs[len(GRAMMAR_CORPUS)].requests[3:8]],
     }
     return res.finish(cov, ["readings outside the dictionary alphabet are not convertible (the property excludes them)"])
 
